@@ -26,13 +26,15 @@ MCClean == clog # <<>> /\ DoClean /\ Fault([a |-> "Clean"])
 MCCleanBegin == clog # <<>> /\ DoCleanBegin /\ Fault([a |-> "CleanBegin"])
 MCCleanEnd == DoCleanEnd /\ Step([a |-> "CleanEnd"]) /\ UNCHANGED <<nSets, nFaults, nFails>>
 MCPause == next > 0 /\ DoPause /\ Fault([a |-> "Pause"])
-MCRestart == next > 0 /\ DoRestart /\ Fault([a |-> "Restart"])
+\* the restart may come with another cursors.stream.partitions setting: the existing
+\* cursors stream keeps the partitions it was created with, so nothing changes
+MCRestart(parts) == next > 0 /\ DoRestart /\ Fault([a |-> "Restart", parts |-> parts])
 
 MCNext ==
   \/ \E k \in UseKeys : MCSet(k) \/ MCFetch(k) \/ MCSetFail(k)
   \/ \E c \in UseClients, k \in UseKeys : MCFetchBegin(c, k)
   \/ \E c \in UseClients : MCFetchEnd(c)
-  \/ MCClean \/ MCPause \/ MCRestart \/ MCCleanBegin \/ MCCleanEnd
+  \/ MCClean \/ MCPause \/ (\E parts \in 1..3 : MCRestart(parts)) \/ MCCleanBegin \/ MCCleanEnd
 
 MCSpec == MCInit /\ [][MCNext]_mcvars
 
